@@ -1,11 +1,19 @@
 package PVM
 
+// exitContinueBranchToSelf is ExitContinue (reason type CONTINUE) carrying a marker: the instruction
+// jumped to its own position, which must be executed again rather than treated as a fall-through.
+const exitContinueBranchToSelf = ExitContinue | 1
+
 func branch(pc ProgramCounter, b ProgramCounter, C bool, bitmask Bitmask, instruction ProgramCode) (ExitReason, ProgramCounter) {
 	switch {
 	case !C:
 		return ExitContinue, pc
 	case !bitmask.IsStartOfBasicBlock(b) && instruction.isOpcodeValid(b):
 		return ExitPanic, pc
+	case b == pc:
+		// a taken branch to the instruction's own position: the engines tell "taken" from "not taken" by
+		// comparing program counters, so this case is flagged explicitly
+		return exitContinueBranchToSelf, b
 	default:
 		return ExitContinue, b
 	}
@@ -31,6 +39,9 @@ func djump(pc ProgramCounter, a uint32, jumpTable JumpTable, bitmask Bitmask) (E
 
 	if !bitmask.IsStartOfBasicBlock(newPC) {
 		return ExitPanic, pc
+	}
+	if newPC == pc {
+		return exitContinueBranchToSelf, newPC
 	}
 
 	return ExitContinue, newPC
